@@ -1691,29 +1691,21 @@ static int gen_root_struct_parser(fb_output_t *out, fb_compound_type_t *ct)
     fb_clear(snt);
     fb_compound_name(ct, &snt);
 
+    /*
+     * Delegate to the type specific entry point: it installs the nesting
+     * limit, honours the `with_size` flag and sets `end_loc`.
+     */
     println(out, "static int %s_parse_json(flatcc_builder_t *B, flatcc_json_parser_t *ctx,", out->S->basename);
     indent(); indent();
-    println(out, "const char *buf, size_t bufsiz, int flags)");
+    println(out, "const char *buf, size_t bufsiz, flatcc_json_parser_flags_t flags)");
     unindent(); unindent();
     println(out, "{"); indent();
-    println(out, "flatcc_json_parser_t ctx_;");
-    println(out, "flatcc_builder_ref_t root;");
-    println(out, "");
-    println(out, "ctx = ctx ? ctx : &ctx_;");
-    println(out, "flatcc_json_parser_init(ctx, B, buf, buf + bufsiz, flags);");
     if (out->S->file_identifier.type == vt_string) {
-        println(out, "if (flatcc_builder_start_buffer(B, \"%.*s\", 0, 0)) return -1;",
-        out->S->file_identifier.s.len, out->S->file_identifier.s.s);
+        println(out, "return %s_parse_json_as_root(B, ctx, buf, bufsiz, flags, \"%.*s\");",
+                snt.text, out->S->file_identifier.s.len, out->S->file_identifier.s.s);
     } else {
-        println(out, "if (flatcc_builder_start_buffer(B, 0, 0, 0)) return -1;");
+        println(out, "return %s_parse_json_as_root(B, ctx, buf, bufsiz, flags, 0);", snt.text);
     }
-    println(out, "buf = %s_parse_json_struct(ctx, buf, buf + bufsiz, &root);", snt.text);
-    println(out, "if (ctx->error) {"); indent();
-    println(out, "return ctx->error;");
-    unindent(); println(out, "}");
-    println(out, "if (!flatcc_builder_end_buffer(B, root)) return -1;");
-    println(out, "ctx->end_loc = buf;");
-    println(out, "return 0;");
     unindent(); println(out, "}");
     println(out, "");
     return 0;
